@@ -604,6 +604,36 @@ def r5(ctx, r):
                     for x in walk(lb["v"]):
                         if x.get("k") == "enum" and last(x["n"]) not in arms:
                             arms[last(x["n"])] = _reach_until_ret(hf, b.id)
+        # every frame reaches the opcode dispatch: 'control frames between fragments handled without disturbing reassembly, pings
+        # answered' — nothing in front of the switch may turn a frame away because a fragmented message is in progress
+        r.instance()
+        wby = search(hf, ("entry",), "exit", stop=lambda x, sw=sw: x.block is sw, eh=False)
+        if wby is not None:
+            inits = {}
+            for e in hf.stmts():
+                if e.node.get("k") == "decl":
+                    for dv in e.node["vars"]:
+                        if dv.get("init") is not None:
+                            inits.setdefault(dv["d"], []).append(dv["init"])
+                a = asg(e.node) if e.kind == "stmt" else None
+                if a and strip_casts(a[0]).get("k") == "var":
+                    inits.setdefault(strip_casts(a[0]).get("d"), []).append(a[1])
+
+            def frag_state(c, depth=0):
+                for x in walk(c):
+                    if x.get("k") == "member" and "ragment" in x["n"]:
+                        return True
+                    if x.get("k") == "var" and x.get("d") in inits and depth < 3 and any(frag_state(i, depth + 1) for i in inits[x["d"]]):
+                        return True
+                return False
+            pre = [b for b in hf.blocks.values() if b.cond is not None and search(hf, ("block", b.id), lambda x, sw=sw: x.block is sw, eh=False) is not None and not (b is sw)]
+            if any(frag_state(b.cond) for b in pre):
+                r.fail(hf, None, "%s: frame turned away by fragment state" % label, "%s handleFrame can return before the opcode dispatch on a condition over the fragment-reassembly state (%s): a PING / PONG / CLOSE "
+                       "arriving between the fragments of a message is not processed — no PONG is sent, the message in progress is lost or the connection is dropped" % (label, witness_str(hf, wby)))
+            else:
+                raise AnalysisBroken("%s handleFrame: a path bypasses the opcode switch on a condition this rule does not know (%s)" % (label, witness_str(hf, wby)))
+        else:
+            r.ok("%s: every frame reaches the opcode dispatch" % label)
         ping = arms.get("PING", [])
         mk = [e for e in ping if e.kind == "stmt" and e.node.get("k") in ("call", "mcall") and last(e.node.get("callee", "")) == "makePong"]
         snd = [e for e in ping if e.kind == "stmt" and e.node.get("k") == "mcall" and last(e.node.get("callee", "")) in ("sendRaw", "sendRawBytes")]
